@@ -181,6 +181,20 @@ CHECKS = {
         note="the interpreter is the oracle; nothing is compared where it rejects; documented exclusions: _index/Index, hooks, discard, "
              "_subcons, lambdas, exception paths, look-ahead over truncated data",
         design="§3 C04"),
+    "C07": dict(
+        technique="bounded-exhaustive enumeration of scope chains x reference paths x roles x operations, differential against an explicit scope-chain model",
+        text="Every chain (length <=2, plus length 3 over a 6-kind alphabet in quick; full length 3 in thorough) of scope-pushing composites "
+             "(Struct, Sequence, FocusedSeq, Union, LazyStruct, and Struct/Sequence whose sibling is a derived Rebuild member), repeaters "
+             "(Array, GreedyRange, RepeatUntil) and transparent wrappers (Prefixed, FixedSized, Padded, IfThenElse, Switch, Renamed) is "
+             "generated with, at the innermost position, every reference path available there (sibling, one '_' per enclosing scope, "
+             "_root, _params at every depth, _index as seen from every frame, the three mode flags) in every role (value, length, count, "
+             "branch). Each shape is parsed on 6 inputs x 2 keyword contexts, built from every parsed value and sized; value, consumed "
+             "bytes, built bytes and sizeof must equal the scope model's, and the built bytes must parse back to what the model says "
+             "they mean. Separate exhaustive sub-checks: exactly one mode flag is true at depths 0-3 for parse/build/sizeof; _index after "
+             "a completed inner repeater (3 outer x 3 inner repeaters x 2 scopes x 2 probes).",
+        note="the scope model is mc/ref.py's push/top_ctx (frames as dicts) - an independent implementation of the documented context rules; "
+             "LazyStruct members do not use sibling references or _index (documented restriction); no claim for Select/Tunnel re-rooting",
+        design="§3 C07"),
 }
 
 PENDING_REASON = "check not built yet in this round (see DESIGN.md §7 build order); it will be decided by the same bounded-exhaustive engine"
